@@ -26,7 +26,7 @@ EXPLANATION = (
 
 FACADE = {'facade': {'myokit': True}, 'diffcheck': False}
 
-OPS = ['Ad', 'Ai', 'D1', 'D2', 'O1', 'O2', 'RP', 'RO', 'S+', 'S-', 'C']
+OPS = ['Ad', 'Ai', 'D1', 'D2', 'O1', 'O2', 'RP', 'RO', 'S+', 'Ss', 'S-', 'C']
 TIMES = [0.5, 2.0]
 
 
@@ -85,11 +85,17 @@ def apply_op(B, m, op, st):
     elif op == 'S+':
         m.enable_sensitivities(True)
         st['sens'] = True
+    elif op == 'Ss':
+        # sensitivities for a subset (the first published parameter)
+        m.enable_sensitivities(True, parameter_names=m.parameters()[:1])
+        st['sens'] = 'subset'
     elif op == 'S-':
         m.enable_sensitivities(False)
         st['sens'] = False
     elif op == 'C':
         m = m.copy()
+        if st.get('sens') == 'subset':
+            st['sens'] = True    # documented: a copy computes all of them
     return m
 
 
@@ -113,7 +119,9 @@ def reference(B, model_name, st):
         cur = r.outputs()
         if st['ro'] in cur:
             r.set_output_names({st['ro']: 'Y'})
-    if st.get('sens'):
+    if st.get('sens') == 'subset':
+        r.enable_sensitivities(True, parameter_names=r.parameters()[:1])
+    elif st.get('sens'):
         r.enable_sensitivities(True)
     return r
 
@@ -185,8 +193,21 @@ def case_history(B, cfg):
     for op in ops:
         if op == 'Co':
             c = m.copy()
-            keep.append((c, observe(B, c, 'copy at the moment of copying'),
-                         observe(B, m, 'original at the moment of copying')))
+            snap_c = observe(B, c, 'copy at the moment of copying')
+            snap_o = observe(B, m, 'original at the moment of copying')
+            if st.get('sens') == 'subset':
+                # documented: copying resets the sensitivity *settings* (the
+                # copy computes the sensitivities of all parameters)
+                snap_o = {k: v for k, v in snap_o.items()
+                          if k not in ('sens', 'sens_shape')}
+                snap_o['sens_shape'] = snap_c.get('sens_shape')
+                snap_o['sens'] = snap_c.get('sens')
+                B.fact('copy of a model with a sensitivity subset computes '
+                       'all sensitivities',
+                       snap_c.get('sens_shape') is not None and
+                       snap_c['sens_shape'][-1] == snap_c['n_parameters'],
+                       repr(snap_c.get('sens_shape')))
+            keep.append((c, snap_c, snap_o))
             continue
         try:
             m = apply_op(B, m, op, st)
@@ -356,7 +377,7 @@ def jobs(tier):
                 out.append(('history', 'case_history',
                             dict(model=name, ops=o), FACADE))
     if q:
-        small = ['Ad', 'Ai', 'D1', 'D2', 'S+', 'C']
+        small = ['Ad', 'Ai', 'D1', 'D2', 'S+', 'Ss', 'C']
         for ops in itertools.product(small, repeat=3):
             out.append(('history', 'case_history', dict(
                 model='one_compartment_pk_model', ops=list(ops)), FACADE))
